@@ -131,6 +131,7 @@ CHECKS["C15"] = {
             {"run": "TestVfC15Limiter", "quick": 30000, "thorough": 22222220, "shards_quick": 6, "shards_thorough": 16, "timeout_thorough": 3000},
             {"run": "TestVfC15Concurrent", "quick": 400, "thorough": 20000, "shards_quick": 2, "shards_thorough": 8},
             {"run": "TestVfC15Gc", "quick": 1600, "thorough": 80000, "shards_quick": 8, "shards_thorough": 16},
+            {"run": "TestVfC15GcVsUse", "quick": 40, "thorough": 2000, "shards_quick": 8, "shards_thorough": 16},
             {"run": "TestVfC15GcKeepsLive", "quick": 0, "thorough": 2, "shards_thorough": 2},
         ]},
         {"engine": "P", "pkg": "app/router", "tests": [
